@@ -341,4 +341,40 @@ theorem sequential_eq_workers (env : Env) (chain : Chain) (hs : List Header) (se
   rw [this]
   cases firstFailure (List.map (fun k => workerResult env chain hs seals k) (List.range hs.length)) <;> rfl
 
+
+/-! ## the linkage pre-check of ValidateHeaderChain -/
+
+theorem linked_contiguous : ∀ (hs : List Header), linked hs = true → (∀ a ∈ hs, a.number + 1 < two64) →
+    ∀ i a b, hs[i]? = some a → hs[i + 1]? = some b → b.number = a.number + 1 ∧ b.parentHash = a.hash
+  | [], _, _, i, a, b, ha, _ => by simp at ha
+  | [x], _, _, i, a, b, ha, hb => by simp at hb
+  | x :: y :: rest, hl, hsm, i, a, b, ha, hb => by
+    unfold linked at hl
+    simp only [Bool.and_eq_true, decide_eq_true_eq] at hl
+    obtain ⟨⟨hn, hp⟩, hrest⟩ := hl
+    match i with
+    | 0 =>
+      simp at ha hb
+      subst ha hb
+      have h1 := hsm x List.mem_cons_self
+      have h2 := hsm y (List.mem_cons_of_mem _ List.mem_cons_self)
+      unfold two64 at *
+      exact ⟨by omega, hp⟩
+    | i + 1 =>
+      have ha' : (y :: rest)[i]? = some a := by simpa using ha
+      have hb' : (y :: rest)[i + 1]? = some b := by simpa using hb
+      exact linked_contiguous (y :: rest) hrest (fun c hc => hsm c (List.mem_cons_of_mem _ hc)) i a b ha' hb'
+
+theorem contiguous_linked : ∀ (hs : List Header),
+    (∀ i a b, hs[i]? = some a → hs[i + 1]? = some b → b.number = a.number + 1 ∧ b.parentHash = a.hash) → linked hs = true
+  | [], _ => rfl
+  | [x], _ => rfl
+  | x :: y :: rest, h => by
+    unfold linked
+    have h0 := h 0 x y (by simp) (by simp)
+    have hr := contiguous_linked (y :: rest) (fun i a b ha hb => h (i + 1) a b (by simpa using ha) (by simpa using hb))
+    simp only [Bool.and_eq_true, decide_eq_true_eq]
+    refine ⟨⟨?_, h0.2⟩, hr⟩
+    rw [h0.1]; simp [Nat.add_mod]
+
 end Aqv.Consensus
